@@ -264,6 +264,59 @@ fn sink_all(ops: &dyn SeqOps, i: usize, src: Src, ctx: Ctx) -> (Out<usize>, Vec<
     (r, w.accepted)
 }
 
+/// Writer faults (every single deviation at every choice point) while serializing BORROWED
+/// sources — a slice reference and an exact-size iterator over value `i` — alone and inside
+/// generic items: error reported, accepted bytes a prefix, and the borrowed memory (protected
+/// by the poisoning allocator) neither freed nor changed.
+pub fn borrowed_faults(ops: &dyn SeqOps, cx: &mut Cx, i: usize, want: &Val, srcs: &[Src]) {
+        let prot = ops.owned(i);
+        for src in srcs {
+            for ctx in [Ctx::Alone, Ctx::G1, Ctx::GEOne] {
+                let (_, reference) = sink_all(ops, i, Src::Vec, ctx);
+                let mut probe = ScriptWriter::new(Script::default());
+                let _ = ops.ser(i, *src, ctx, &mut probe);
+                let npoints = probe.log.len();
+                for p in 0..npoints {
+                    let (_, is_flush, len) = probe.log[p];
+                    let alts: &[u8] = if is_flush { &[0] } else if len == 0 { &[2, 4] } else { &[0, 1, 2, 3, 4] };
+                    for a in alts {
+                        cx.evals += 1;
+                        cx.transitions += 1;
+                        let mut w = ScriptWriter::new(Script { dev: vec![(p, *a)] });
+                        protect(&prot);
+                        let r = ops.ser(i, *src, ctx, &mut w);
+                        let freed = unprotect();
+                        let hard = w.hard_fail;
+                        let mut bad: Vec<&str> = vec![];
+                        match &r {
+                            Out::Panic(_) => bad.push("panic"),
+                            Out::Ok(_) => { if hard { bad.push("success-despite-failure"); } else if !(w.accepted == reference || vcore::checks::masked_eq(&w.accepted, &reference, &ops.mask(i, ctx))) { bad.push("bytes-differ-from-fault-free"); } }
+                            Out::Err(e) if e == "WriteError" => { if !hard { bad.push("error-without-failure"); } }
+                            Out::Err(_) => bad.push("wrong-error-kind"),
+                        }
+                        { let m = ops.mask(i, ctx); let k = w.accepted.len(); if k > reference.len() || !(reference.starts_with(&w.accepted) || (m.len() == reference.len() && vcore::checks::masked_eq(&w.accepted, &reference[..k], &m[..k]))) { bad.push("accepted-not-a-prefix"); } }
+                        if freed > 0 { bad.push("source-memory-freed"); }
+                        if ops.val(i) != *want { bad.push("source-value-changed"); }
+                        cx.outcome(&format!("fault-{}", r.class()));
+                        for b in bad { cx.violate(&format!("writer-{}", b), json!({"value": vdesc(i, &want), "source": format!("{:?}", src), "context": format!("{:?}", ctx), "script": [p, *a], "observed": r.describe()})); }
+                    }
+                }
+            }
+        }
+}
+
+/// The C13 part over borrowed sources (the universe of the runner holds owned values only).
+pub fn c13_borrowed(ops: &dyn SeqOps, cx: &mut Cx) {
+    let n = ops.build(cx.tier.pick(30, 200));
+    let srcs: Vec<Src> = if ops.has_iter() { vec![Src::Slice, Src::Iter] } else { vec![Src::Slice] };
+    for i in 0..n.min(cx.tier.pick(6, 16)) {
+        let want = ops.val(i);
+        cx.case(vcore::cx::hash64(&[cx.type_id.as_bytes(), format!("{:?}", want).as_bytes()]), true);
+        borrowed_faults(ops, cx, i, &want, &srcs);
+        if i == 1 { cx.sample(json!({"borrowed_sources_of": cx.type_id, "items": format!("{:?}", want), "sources": format!("{:?}", srcs)})); }
+    }
+}
+
 pub fn c16(ops: &dyn SeqOps, cx: &mut Cx) {
     let n = ops.build(cx.tier.pick(30, 200));
     let srcs: Vec<Src> = if ops.has_iter() { vec![Src::Slice, Src::Iter] } else { vec![Src::Slice] };
@@ -341,42 +394,7 @@ pub fn c16(ops: &dyn SeqOps, cx: &mut Cx) {
             }
         }
         // writer faults on borrowed sources (D = 1): the borrowed data must never be freed
-        if i < cx.tier.pick(4, 12) {
-            let prot = ops.owned(i);
-            for src in &srcs {
-                for ctx in [Ctx::Alone, Ctx::G1, Ctx::GEOne] {
-                    let (_, reference) = sink_all(ops, i, Src::Vec, ctx);
-                    let mut probe = ScriptWriter::new(Script::default());
-                    let _ = ops.ser(i, *src, ctx, &mut probe);
-                    let npoints = probe.log.len();
-                    for p in 0..npoints {
-                        let (_, is_flush, len) = probe.log[p];
-                        let alts: &[u8] = if is_flush { &[0] } else if len == 0 { &[2, 4] } else { &[0, 1, 2, 3, 4] };
-                        for a in alts {
-                            cx.evals += 1;
-                            cx.transitions += 1;
-                            let mut w = ScriptWriter::new(Script { dev: vec![(p, *a)] });
-                            protect(&prot);
-                            let r = ops.ser(i, *src, ctx, &mut w);
-                            let freed = unprotect();
-                            let hard = w.hard_fail;
-                            let mut bad: Vec<&str> = vec![];
-                            match &r {
-                                Out::Panic(_) => bad.push("panic"),
-                                Out::Ok(_) => { if hard { bad.push("success-despite-failure"); } else if !(w.accepted == reference || vcore::checks::masked_eq(&w.accepted, &reference, &ops.mask(i, ctx))) { bad.push("bytes-differ-from-fault-free"); } }
-                                Out::Err(e) if e == "WriteError" => { if !hard { bad.push("error-without-failure"); } }
-                                Out::Err(_) => bad.push("wrong-error-kind"),
-                            }
-                            { let m = ops.mask(i, ctx); let k = w.accepted.len(); if k > reference.len() || !(reference.starts_with(&w.accepted) || (m.len() == reference.len() && vcore::checks::masked_eq(&w.accepted, &reference[..k], &m[..k]))) { bad.push("accepted-not-a-prefix"); } }
-                            if freed > 0 { bad.push("source-memory-freed"); }
-                            if ops.val(i) != want { bad.push("source-value-changed"); }
-                            cx.outcome(&format!("fault-{}", r.class()));
-                            for b in bad { cx.violate(&format!("writer-{}", b), json!({"value": vdesc(i, &want), "source": format!("{:?}", src), "context": format!("{:?}", ctx), "script": [p, *a], "observed": r.describe()})); }
-                        }
-                    }
-                }
-            }
-        }
+        if i < cx.tier.pick(4, 12) { borrowed_faults(ops, cx, i, &want, &srcs); }
         // lying iterators
         if ops.has_iter() {
             let b = match &want { Val::Seq(v) => v.len(), _ => 0 };
